@@ -69,6 +69,13 @@ var allowedMutationAttrs = map[string]struct{}{
 	aaa.AttrRateLimitDown:       {},
 }
 
+// IsMutableAttribute reports whether name is one of the session attributes
+// that may be changed on a live session (by the API or by a RADIUS CoA).
+func IsMutableAttribute(name string) bool {
+	_, ok := allowedMutationAttrs[name]
+	return ok
+}
+
 func validateAttributes(attrs map[string]string) (int, error) {
 	if len(attrs) == 0 {
 		return ErrorCauseMissingAttribute, fmt.Errorf("attribute delta is empty")
